@@ -53,6 +53,7 @@ def run(ctx):  # noqa: C901
     ctx.rule("R-PRED", "boolean skeletons of the definitional predicates")
     ctx.rule("R-GUARD", "the squareness test dominates every shape-dependent comparison")
     ctx.rule("R-COV", "predicates preserved by unitary conjugation are typed Inv; a bare transpose makes them Basis (positive control: is_symmetric)")
+    ctx.rule("R-DISPATCH", "tensor(M, n) vs tensor(A, B): the integer-count branch is taken for every integer type a count can have")
     ctx.rule("R-LAYOUT", "vec / unvec agree on column-major order; the commutant's Kronecker form matches its reshape order; tensor folds left to right")
     for nm in TOL_PREDICATES:
         f = F(m, nm)
@@ -219,9 +220,53 @@ def run(ctx):  # noqa: C901
     sq = any(isinstance(n, ast.Assign) and isinstance(n.targets[0], ast.Name) and n.targets[0].id == "inner_product" and Nb(n.value)[0] == "**" and Nb(n.value)[2] == ("c", 2) and
              "numpy.abs" in repr(Nb(n.value)) and ("numpy.vdot" in repr(Nb(n.value)) or ("numpy.trace" in repr(Nb(n.value)) and "'dag'" in repr(Nb(n.value)))) for n in walk_no_nested(mub.node))
     # coverage: every pair of distinct bases (i < j), every vector of the first (k) and of the second (l)
-    its = [Nb(lp.iter) for lp in walk_no_nested(mub.node) if isinstance(lp, ast.For)]
+    # (the loop nest that contains the unbiasedness comparison; the orthonormality loop is a separate obligation below)
+    nest = [lp for lp in walk_no_nested(mub.node) if isinstance(lp, ast.For) and
+            any(isinstance(c, ast.Call) and m.resolve_call(mub, c).key == "numpy.isclose" for c in ast.walk(lp))]
+    its = [Nb(lp.iter) for lp in nest]
     R = lambda *a: ("call", "builtins.range", tuple(a), ())  # noqa: E731
-    lvs = [lp.target.id for lp in walk_no_nested(mub.node) if isinstance(lp, ast.For) and isinstance(lp.target, ast.Name)]
+    lvs = [lp.target.id for lp in nest if isinstance(lp.target, ast.Name)]
+    # every block of `dim` consecutive vectors is itself an orthonormal basis: Gram(block) ~ identity(dim), for every block
+    okon, why = False, "no comparison of a block's Gram matrix with the identity"
+    for lp in walk_no_nested(mub.node):
+        if not (isinstance(lp, ast.For) and isinstance(lp.target, ast.Name) and Nb(lp.iter) == R(("n", "num_bases"))):
+            continue
+        iv = lp.target.id
+        for st in ast.walk(lp):
+            if not (isinstance(st, ast.If) and st.body and isinstance(st.body[0], ast.Return) and isinstance(st.body[0].value, ast.Constant) and st.body[0].value.value is False):
+                continue
+            t = Nb(st.test)
+            if not (t[0] == "not" and t[1][0] == "call" and t[1][1] == "numpy.allclose" and len(t[1][2]) >= 2):
+                continue
+            g, idn = t[1][2][0], t[1][2][1]
+            if idn[0] == "@":
+                g, idn = idn, g
+            gram = g[0] == "@" and len(g[1]) == 2 and (g[1][0] == ("dag", g[1][1]) or g[1][1] == ("dag", g[1][0]))
+            ident = idn[0] == "call" and idn[1] in ("numpy.identity", "numpy.eye") and idn[2] and idn[2][0] == ("n", "dim")
+            if not (gram and ident):
+                why = f"`{unparse(st.test)[:70]}` is not Gram(block) ~ identity(dim)"
+                continue
+            blk = g[1][1] if g[1][0][0] == "dag" else g[1][0]
+            src = None
+            if blk[0] == "n":
+                for d in ast.walk(lp):
+                    if isinstance(d, ast.Assign) and isinstance(d.targets[0], ast.Name) and d.targets[0].id == blk[1]:
+                        src = d.value
+            sl = [x for x in ast.walk(src)] if src is not None else []
+            oks = False
+            for x in sl:
+                if isinstance(x, ast.Subscript) and isinstance(x.value, ast.Name) and x.value.id == "vectors" and isinstance(x.slice, ast.Slice) and x.slice.lower is not None \
+                        and x.slice.upper is not None and x.slice.step is None:
+                    lo, hi = Nb(x.slice.lower), Nb(x.slice.upper)
+                    want_lo = Nb(ast.parse(f"{iv} * dim", mode="eval").body)
+                    want_hi = (Nb(ast.parse(f"({iv} + 1) * dim", mode="eval").body), Nb(ast.parse(f"{iv} * dim + dim", mode="eval").body))
+                    oks = lo == want_lo and hi in want_hi
+                    if not oks:
+                        why = f"the block compared is vectors[{unparse(x.slice)}], not vectors[{iv}*dim:({iv}+1)*dim]"
+            if oks:
+                okon, why = True, f"for every block: allclose(Dagger(B) @ B, identity(dim)) else False, B = vectors[{iv}*dim:({iv}+1)*dim]"
+    ctx.ob("R-DEF", mub, "every block of dim vectors is an orthonormal basis (Gram ~ identity)", okon, why if okon else
+           why + ": a collection of pairwise unbiased but non-orthonormal blocks (e.g. [e0, e0, +, +]) would be accepted as mutually unbiased bases")
     okcov = len(its) == 4 and its[0] == R(("n", "num_bases")) and len(lvs) == 4 and its[1] == R(("+", (("c", 1), ("n", lvs[0]))), ("n", "num_bases")) and its[2] == R(("n", "dim")) and its[3] == R(("n", "dim"))
     ctx.ob("R-ENUM", mub, "all pairs of distinct bases and all pairs of their vectors are compared", okcov,
            "i < j over the bases, k and l over range(dim)" if okcov else f"loops range over {[show(t)[:40] for t in its]}: some basis or vector is never compared")
@@ -291,6 +336,24 @@ def run(ctx):  # noqa: C901
     else:
         loops_ok = None
         ctx.ob("R-ENUM", tn, "tensor(M, n): the repeated-squaring helper multiplies exactly n factors", loops_ok, "no nested power helper found: the n-fold form is computed some other way", required=False)
+    # dispatch: tensor(M, n) is told apart from tensor(A, B) by isinstance(args[1], <integer types>); a count that is a numpy
+    # integer (len() of an array shape, np.sum of a mask, an element of np.arange ...) must take the n-fold branch too -- the
+    # fall-through is kron(M, n) = n * M, a wrong matrix rather than an error
+    guards = []
+    for n in walk_no_nested(tn.node):
+        if isinstance(n, ast.If) and pw_calls and any(c is x for c in pw_calls for x in ast.walk(n)):
+            for x in ast.walk(n.test):
+                if isinstance(x, ast.Call) and isinstance(x.func, ast.Name) and x.func.id == "isinstance" and len(x.args) == 2 and unparse(x.args[0]) == "args[1]":
+                    ts = x.args[1].elts if isinstance(x.args[1], ast.Tuple) else [x.args[1]]
+                    guards.append((x, {unparse(t) for t in ts}))
+    if guards:
+        x, ts = guards[0]
+        okd = "int" in ts and bool(ts & {"np.integer", "numpy.integer", "numbers.Integral", "Integral", "np.signedinteger"}) or bool(ts & {"numbers.Integral", "Integral"})
+        ctx.ob("R-DISPATCH", tn, "the n-fold branch accepts Python and numpy integer counts", okd,
+               f"isinstance(args[1], {sorted(ts)})" if okd else
+               f"`{unparse(x)}` is False for a numpy integer count (e.g. np.int64(3)): tensor(M, n) falls through to kron(M, n) = n * M", x)
+    else:
+        ctx.ob("R-DISPATCH", tn, "the n-fold branch accepts Python and numpy integer counts", None, "no isinstance dispatch on args[1] found", required=False)
     # n == 0 and n == 1 special cases
     z = [rn for rn, facts in flw.flow(tn.node).returns if rn is not None and isinstance(rn.value, ast.Call) and m.resolve_call(tn, rn.value).key in ("numpy.eye", "numpy.identity")]
     okz = bool(z) and all(unparse(r.value.args[0]) == "1" for r in z)
